@@ -285,7 +285,7 @@ def emit(ctx):
     import rnapolis.tertiary as T
     tree, _ = module_ast("annotator")
     ttree, _ = module_ast("tertiary")
-    out = [HEADER, "namespace RnaVerif.Gen\n"]
+    out = [HEADER, "/-! tables and thresholds of annotator.py / tertiary.py used by the pair model; own namespace `Gen.Ann` so that\nnames cannot collide with other generated files -/\nnamespace RnaVerif.Gen.Ann\n"]
 
     def str_list(l):
         return lean_list([lean_str(s) for s in l], 12)
@@ -446,5 +446,5 @@ def emit(ctx):
                "def mergeRules : List (Nat × Nat × Nat) := %s\n" % lean_list(["(%d, %d, %d)" % r for r in live], 6))
     out.append("/-- class numbers that have a BPh and a BR enum member (`BPh[f\"_{k}\"]`) -/\ndef bphClassNumbers : List Nat := %s\n" % lean_list(
         [str(k) for k in classes if hasattr(C.BPh, "_%d" % k) and hasattr(C.BR, "_%d" % k)], 12))
-    out.append("end RnaVerif.Gen\n")
+    out.append("end RnaVerif.Gen.Ann\n")
     return {"Annotator.lean": "\n".join(out)}
